@@ -46,6 +46,21 @@ def passes_through(ctx: Ctx, wrapper: str, callee_name: str, view: str) -> None:
               construct=f"{wrapper} alters or drops an argument when delegating", message=", ".join(detail), file=fi.file, node=call)
 
 
+
+def _selects(test: ast.AST, var: str, T: str):
+    """Does `test` (a comparison of `var.message_type` with enum members) hold for a message of type T?  None if not of that form."""
+    if isinstance(test, ast.Compare) and len(test.ops) == 1 and src(test.left) == f"{var}.message_type":
+        m = enum_member(test.comparators[0], "MessageType")
+        if m is not None and isinstance(test.ops[0], (ast.Eq, ast.Is)):
+            return m == T
+        if m is not None and isinstance(test.ops[0], (ast.NotEq, ast.IsNot)):
+            return m != T
+        if isinstance(test.ops[0], (ast.In, ast.NotIn)) and isinstance(test.comparators[0], (ast.Tuple, ast.List, ast.Set)):
+            ms = [enum_member(e, "MessageType") for e in test.comparators[0].elts]
+            if all(x is not None for x in ms):
+                return (T in ms) == isinstance(test.ops[0], ast.In)
+    return None
+
 def check(ctx: Ctx) -> None:
     _check(ctx)
     from ..engines.typestate import check_wrappers
@@ -112,26 +127,50 @@ def _check(ctx: Ctx, only=None) -> None:
                 if isinstance(n, ast.AugAssign) and isinstance(n.op, ast.Add) and isinstance(n.target, ast.Name) and isinstance(n.value, ast.Attribute) \
                         and n.value.attr == "time":
                     acc = n.target.id
+        sum_form = None
         if lp is None or acc is None:
-            raise AnalysisError(f"{q}: length measurement loop not found")
-        for T in p.enum_order("MessageType"):
-            tc = TypeCase(p, fi, {lp.target.id}, T)
-            exits = tc.run_body(lp.body)
-            rng = events_matching(exits, lambda e: e[0] == "aug" and e[1] == acc, kinds=("end", "continue", "break"))
-            want = (1, 1) if T == "WAIT" else (0, 0)
-            ctx.check(rng == want or (rng is None and want == (0, 0)), "MEASURE", f"{q}: {T} contributes {rng} to the measured length", function=q,
-                      construct=f"measured length counts {T} messages wrongly", message=f"{rng}, expected {want}", file=fi.file, node=lp)
-        init = [s for s in fi.node.body if isinstance(s, ast.Assign) and any(isinstance(t, ast.Name) and t.id == acc for t in s.targets)]
-        ctx.check(len(init) == 1 and isinstance(init[0].value, ast.Constant) and init[0].value.value == 0, "MEASURE", f"{q}: measurement starts at 0",
-                  function=q, construct="measured length does not start at 0", message="", file=fi.file, node=fi.node)
-        # early exit only once the requested length is reached
-        for b in [n for n in ast.walk(lp) if isinstance(n, ast.Break)]:
-            g = getattr(b, "_parent", None)
-            from ..linear import relation, same_relation
-            rr = relation(g.test, Normaliser()) if isinstance(g, ast.If) else None
-            ok = rr is not None and (same_relation(rr, Sym.atom(acc) - Sym.atom(req), ">=") or same_relation(rr, Sym.atom(acc) - Sym.atom(req), ">"))
-            ctx.check(ok, "MEASURE", f"{q}: measuring stops early only when the requested length is reached", function=q,
-                      construct="measurement loop stops early under another condition", message=f"`{short(getattr(g, 'test', None))}`", file=fi.file, node=b)
+            # the same measurement written as one expression: `acc = sum(m.time for m in self._messages if m.message_type == WAIT)`
+            for st_ in fi.node.body:
+                if isinstance(st_, ast.Assign) and len(st_.targets) == 1 and isinstance(st_.targets[0], ast.Name) and isinstance(st_.value, ast.Call) \
+                        and isinstance(st_.value.func, ast.Name) and st_.value.func.id == "sum" and st_.value.args \
+                        and isinstance(st_.value.args[0], (ast.GeneratorExp, ast.ListComp)) and len(st_.value.args[0].generators) == 1 \
+                        and isinstance(st_.value.args[0].elt, ast.Attribute) and st_.value.args[0].elt.attr == "time":
+                    sum_form, acc = st_, st_.targets[0].id
+        if sum_form is not None:
+            comp = sum_form.value.args[0]
+            gen = comp.generators[0]
+            ctx.check(attr_chain(gen.iter) == ["self", "_messages"], "MEASURE", f"{q}: the length is measured over the sequence's whole event list", function=q,
+                      construct="pad measures something other than the sequence's whole event list",
+                      message=f"`{short(gen.iter)}`: a partly consumed iterator (or another list) leaves waits uncounted, so too much is appended", file=fi.file, node=sum_form)
+            tv = gen.target.id if isinstance(gen.target, ast.Name) else None
+            for T in p.enum_order("MessageType"):
+                sel = bool(gen.ifs) or None
+                if gen.ifs and tv:
+                    sel = all(_selects(t_, tv, T) for t_ in gen.ifs)
+                want = T == "WAIT"
+                ctx.check(sel is not None and sel == want and src(comp.elt.value) == tv, "MEASURE", f"{q}: {T} contributes {'its time' if want else 'nothing'} to the measured length",
+                          function=q, construct=f"measured length counts {T} messages wrongly", message=f"filter `{[short(t_) for t_ in gen.ifs]}`", file=fi.file, node=sum_form)
+        elif lp is None or acc is None:
+            ctx.floor(f"{q}: length measurement (loop or sum over the event list)", 0, 1)
+        else:
+            for T in p.enum_order("MessageType"):
+                tc = TypeCase(p, fi, {lp.target.id}, T)
+                exits = tc.run_body(lp.body)
+                rng = events_matching(exits, lambda e: e[0] == "aug" and e[1] == acc, kinds=("end", "continue", "break"))
+                want = (1, 1) if T == "WAIT" else (0, 0)
+                ctx.check(rng == want or (rng is None and want == (0, 0)), "MEASURE", f"{q}: {T} contributes {rng} to the measured length", function=q,
+                          construct=f"measured length counts {T} messages wrongly", message=f"{rng}, expected {want}", file=fi.file, node=lp)
+            init = [s for s in fi.node.body if isinstance(s, ast.Assign) and any(isinstance(t, ast.Name) and t.id == acc for t in s.targets)]
+            ctx.check(len(init) == 1 and isinstance(init[0].value, ast.Constant) and init[0].value.value == 0, "MEASURE", f"{q}: measurement starts at 0",
+                      function=q, construct="measured length does not start at 0", message="", file=fi.file, node=fi.node)
+            # early exit only once the requested length is reached
+            for b in [n for n in ast.walk(lp) if isinstance(n, ast.Break)]:
+                g = getattr(b, "_parent", None)
+                from ..linear import relation, same_relation
+                rr = relation(g.test, Normaliser()) if isinstance(g, ast.If) else None
+                ok = rr is not None and (same_relation(rr, Sym.atom(acc) - Sym.atom(req), ">=") or same_relation(rr, Sym.atom(acc) - Sym.atom(req), ">"))
+                ctx.check(ok, "MEASURE", f"{q}: measuring stops early only when the requested length is reached", function=q,
+                          construct="measurement loop stops early under another condition", message=f"`{short(getattr(g, 'test', None))}`", file=fi.file, node=b)
         apps = [c for c in walk_local(fi.node) if isinstance(c, ast.Call) and call_method(c)[1] in ("append", "add_message")
                 and c.args and isinstance(c.args[0], ast.Call) and call_method(c.args[0])[1] == "Message"]
         ctx.floor("pad append site", len(apps), 1)
